@@ -98,6 +98,21 @@ def gen(rng, tier, i):
         sends = [o for o in hs if o["op"] == "send"]
         sc.add_client("ur%d" % k, li, sends + [op("sleep", ms=3600000)], start_ms=t_stall + 30 + k, background=True)
         stalled.append({"cid": "ur%d" % k, "lk": li["kind"] + "-unread-error", "j": 0})
+    # an API client that asks for the list of live connections and never reads the answer, while that list is long (a
+    # crowd of connections with long destination names waits for the silent upstream) and the server's buffers are small:
+    # the answer cannot be delivered, and that must stay the lazy client's own problem
+    lazy = rng.random() < 0.15
+    if lazy:
+        sc.net["api_buf"] = 8192
+        sc.net["chaos"] = dict(sc.net["chaos"] or {}, capacity=4096)
+        li = lis["http"]
+        for k in range(rng.choice([45, 60])):
+            name = "%s.n%d.example.sim" % ("x" * rng.choice([150, 200]), k)
+            sc.dns[name] = [oip]
+            sc.add_client("cr%d" % k, li, [send(rc.http_connect("%s:9" % name), on_fail="continue"), op("sleep", ms=3600000)], start_ms=t_stall + 40 + k, background=True)
+        sc.actors.append({"kind": "tcp_client", "id": "lazyapi", "src": "10.7.0.9", "dst": "%s:%d" % (G.PROXY4, G.API_PORT), "start_ms": t_stall + 1500, "background": True,
+                          "ops": [send(b"GET /api/live HTTP/1.1\r\nHost: api\r\n\r\n", on_fail="continue"), op("sleep", ms=3600000)]})
+        stalled.append({"cid": "lazyapi", "lk": "api-reader", "j": 0})
     # API calls and canaries
     t0 = t_stall + 2000
     calls = []
@@ -154,6 +169,9 @@ def oracle(plan, out):
         return V
     for p in R.panics():
         v("panic", "-", "panic at %s: %s" % (p.get("loc"), p.get("msg", "")))
+    bl = R.res.get("blocked_sleeps") or {}
+    if bl.get("max_us", 0) >= 10_000:
+        v("worker-blocked", "-", "a runtime worker was put to sleep %d times (%.3f s at most) by a blocking sleep: every connection scheduled on it stands still meanwhile" % (bl.get("calls", 0), bl.get("max_us", 0) / 1e6))
     stalled_kinds = ",".join(sorted(set(s["lk"] for s in meta["stalled"])))
     present = set(a["id"] for a in plan["actors"])
     for c in meta["calls"]:
@@ -207,4 +225,5 @@ def probes(plan, out):
     meta = plan["meta"]
     during = sum(1 for c in meta["canaries"] if c["phase"] == "during")
     return {"nontrivial": bool(meta["stalled"]) and during > 0, "stalled_clients": len(meta["stalled"]), "stalled_upstream_connects": len(meta.get("upstalled", [])), "api_calls": len(meta["calls"]), "canaries_during": during,
-            "live_calls": sum(1 for c in meta["calls"] if c["p"].endswith("live"))}
+            "live_calls": sum(1 for c in meta["calls"] if c["p"].endswith("live")),
+            "lazy_api_reader": any(s["cid"] == "lazyapi" for s in meta["stalled"])}
